@@ -319,6 +319,29 @@ func dstSide(r *mon.Run) {
 			}
 			r.Distinct(name)
 			r.Count("dst_faults_fired", 1)
+			// history: the next encryption in this process, on a healthy
+			// destination, must be unaffected by what the failed one left behind
+			for k := 0; k < 1; k++ {
+				nc := cfg{size: 100, armored: (i/2+k)%2 == 0, party: []string{"X1", "E1"}[(i/4+k)%2]}
+				if (i+k)%16 == 0 {
+					nc.size = 70000
+				}
+				npt := mon.DetBytes(fmt.Sprintf("c13-next-%d-%d", i, k), nc.size)
+				next := &mon.ObservingWriter{}
+				nname, nerr := runEncrypt(nc, npt, next, true)
+				r.Eval(1)
+				if nerr != nil {
+					r.Violate(fmt.Sprintf("next-encryption-failed:after-failure-in:armor=%v", j.c.armored),
+						fmt.Sprintf("%s, then a fresh encryption (%s) on a healthy destination: %s failed: %v", name, nc, nname, nerr),
+						map[string]any{"config": j.c.String(), "fault": j.f.String(), "next": nc.String()})
+				} else if err := validFile(nc, next.Buf, npt); err != nil {
+					r.Violate(fmt.Sprintf("next-encryption-corrupt:after-failure-in:armor=%v:next-armor=%v", j.c.armored, nc.armored),
+						fmt.Sprintf("%s, then a fresh encryption (%s) on a healthy destination: every call reported success but %v", name, nc, err),
+						map[string]any{"config": j.c.String(), "fault": j.f.String(), "next": nc.String()})
+				} else {
+					r.Count("encryptions_after_a_failed_one_valid", 1)
+				}
+			}
 			if first != "" {
 				r.Tab("dst_error_reported_by", callClass(first))
 				return
